@@ -26,7 +26,7 @@ RULE = ("real FsDropInService on a scratch directory (real inotify) with a real 
         "non-numeric / overflowing / negative delays, failing second ruleset), interleaved with main-loop ticks "
         "(updateDropIns + prerun + runOnce) either at script positions (seq) or continuously from the main thread "
         "while a helper thread performs the file operations (par); families: startup, churn, par, rewrite-invalid, "
-        "badnum, recreate, rename, partial, nodir, realplugin (a real core plugin with arbitrary arguments is compiled "
+        "badnum, recreate, reload-race, rename, partial, nodir, realplugin (a real core plugin with arbitrary arguments is compiled "
         "on the watcher thread; never executed).  After the script: wait for the watcher to go idle (inotify "
         "queue empty and thread in epoll_wait), 3 ticks, probe, 15 ms, tick, probe again.  non-trivial = at least "
         "two file operations and, at the end, an active drop-in or an invalid / dot file present")
@@ -388,16 +388,36 @@ def gen_realplugin(rng):
     return b.scenario()
 
 
-FAMILIES = {"startup": gen_startup, "realplugin": gen_realplugin, "churn": gen_churn, "par": lambda r: gen_churn(r, "par"),
+def gen_reload_race(rng):
+    """the directory is re-created and one or two names are rewritten again and again with different valid contents
+    while the main thread ticks continuously: the re-registration's load of the existing files (main thread) overlaps
+    with the watcher's handling of the events for the same names"""
+    b = Builder(rng, "reload-race")
+    b.initial(rng.randint(0, 3))
+    names = rng.sample(NAMES[:8], rng.randint(1, 2))
+    b.ops.append({"op": "rmdir"})
+    if rng.random() < 0.5:
+        b.ops.append({"op": "us", "n": rng.choice([100, 500, 2000])})
+    b.ops.append({"op": "mkdir"})
+    for _ in range(rng.randint(4, 14)):
+        b.ops.append({"op": rng.choice(["write", "write", "movein"]), "name": rng.choice(names), "cid": b.content(valid=True)})
+        if rng.random() < 0.7:
+            b.ops.append({"op": "us", "n": rng.choice([50, 200, 800, 2500])})
+    s = b.scenario(mode="par", tick_us=rng.choice([0, 50, 300]))
+    s["yield_us"] = rng.choice([0, 300, 1500, 4000])
+    return s
+
+
+FAMILIES = {"startup": gen_startup, "realplugin": gen_realplugin, "reload-race": gen_reload_race, "churn": gen_churn, "par": lambda r: gen_churn(r, "par"),
             "rewrite-invalid": gen_rewrite_invalid, "badnum": gen_badnum, "recreate": gen_recreate,
             "rename": gen_rename, "partial": gen_partial, "nodir": gen_nodir,
             "long": lambda r: gen_churn(r, r.choice(["seq", "par"]), n=r.randint(40, 120))}
 
 
 def gen(rng, tier):
-    n = {"quick": 1, "thorough": 12, "search": 2}[tier]
+    n = {"quick": 2, "thorough": 50, "search": 3}[tier]
     plan = [("startup", 60), ("churn", 130), ("par", 130), ("rewrite-invalid", 60), ("badnum", 30), ("recreate", 90),
-            ("rename", 50), ("partial", 40), ("nodir", 30), ("long", 12), ("realplugin", 40)]
+            ("rename", 50), ("partial", 40), ("nodir", 30), ("long", 12), ("realplugin", 40), ("reload-race", 40)]
     if tier == "search":
         plan = [("churn", 100), ("par", 100), ("rewrite-invalid", 80), ("recreate", 80), ("badnum", 40), ("startup", 40)]
     for fam, k in plan:
